@@ -34,6 +34,9 @@ def op(name, *args):
         # constant folding of small things is deliberately NOT done: literals are part of the kernel's identity
         flat.sort(key=render)
         return ("op", name) + tuple(flat)
+    if name in ("eq", "ne") and len(args) == 2:
+        # commutative, not associative: operands ordered, no flattening
+        args.sort(key=render)
     return ("op", name) + tuple(args)
 
 
